@@ -44,6 +44,10 @@ def run(ctx):
                        "braces) hand back the same remainder - the copy of the input from which that character was "
                        "removed.  One of them returning the unshortened input makes the brace appear twice "
                        "(`{a,b}{c}` -> `a{c}}`)")
+    ctx.rule("R12-13", "only `~` and `~/...` name the home directory: the pattern expand_home rewrites with (a literal, "
+                       "evaluated with the program's regex engine on representative words) matches `~`, `~/`, `~/x` and "
+                       "does not match `~name`, `~name/x`, `~~`, `a~`, `a~/x` - a match on `~name` splices the home "
+                       "directory in front of the name (`~root` -> `/rootroot`)")
     ctx.rule("R12-4", "the home directory is not interpreted as a regex replacement template")
     for crate in ctx.crates:
         res = etag.run_sites(ctx, "R12-1", crate, fn_filter=lambda p: p in PASSES)
@@ -65,6 +69,7 @@ def run(ctx):
         range_context_rule(ctx, crate)
         pass_chain_rule(ctx, crate)
         group_remainder_rule(ctx, crate)
+        tilde_shape_rule(ctx, crate)
         home_current_rule(ctx, crate)
         dot_entries_rule(ctx, crate)
 
@@ -564,3 +569,74 @@ def group_remainder_rule(ctx, crate):
            key="R12-12|%s|closing-brace-consumed" % b.path, where=b.loc(sites[-1][0]), crate=crate.kind,
            detail=None if ok else "the returns under `c == '}'` disagree on the remainder (%s): one of them leaves the brace "
            "in the text still to be scanned, and it is emitted a second time" % " vs ".join(names))
+
+
+TILDE_YES = ["~", "~/", "~/x", "~/a b/c", "~/.config/x~"]
+TILDE_NO = ["~root", "~root/x", "~~", "~x", "a~", "a~/x", "x=~/y", "~-", "~+"]
+
+
+def tilde_shape_rule(ctx, crate):
+    from .. import refacts
+    b = crate.fn("shell::expand_home")
+    if not ctx.require(b is not None, "R12-13", "R12-13|anchor", "shell::expand_home not found"):
+        return
+    ctx.analysed(b)
+    lits = []
+    for bb, t, c in b.calls():
+        if c.endswith("Regex::new") or last_seg(c) in ("re_contains", "replace_all", "is_match"):
+            for a in b.call_args(bb):
+                v = mir.const_str(b.expand_vars(strip_sites(a)))
+                if v is not None and "~" in v:
+                    lits.append(v)
+    lits = sorted(set(lits))
+    if not ctx.require(len(lits) == 1, "R12-13", "R12-13|%s|pattern" % b.path,
+                       "expected one regex literal mentioning `~` in expand_home, found %r" % (lits,), b.path):
+        return
+    try:
+        got = refacts.matches(lits[0], TILDE_YES + TILDE_NO)
+    except Exception as e:        # fail closed
+        ctx.require(False, "R12-13", "R12-13|%s|engine" % b.path, "cannot evaluate %r: %s" % (lits[0], str(e)[:120]), b.path)
+        return
+    # the pass is entered only for words that start with `~` (its gate); inside, the pattern decides
+    wrong = [w for w, m in zip(TILDE_YES + TILDE_NO, got)
+             if w.startswith("~") and m != (w in TILDE_YES)]
+    over = [w for w in wrong if w in TILDE_NO]
+    if wrong and len(over) == len(wrong) and _narrow_gate(b):
+        # the pattern is wider, but the code only gets there for `~` / `~/...`
+        wrong = []
+    ctx.ob("R12-13", b.path, "pattern %r matches exactly `~` and `~/...` among %d words that start with `~`" %
+           (lits[0], sum(1 for w in TILDE_YES + TILDE_NO if w.startswith("~"))), not wrong,
+           key="R12-13|%s|tilde-forms" % b.path, crate=crate.kind,
+           detail=None if not wrong else "wrong on: " + ", ".join(wrong))
+
+
+def _narrow_gate(b):
+    """every path to the place where a rewritten word is recorded passes a positive test `text == "~"` or
+    `text.starts_with("~/")`: cut those edges and see whether the record is still reachable"""
+    rec = [bb for bb, t, c in b.calls() if last_seg(c) == "push" and "Vec" in c]
+    if not rec:
+        return False
+
+    def narrow(atom, val):
+        a = strip_sites(atom)
+        if a[0] != "call" or len(a[2]) < 2:
+            return False
+        lit = mir.const_str(b.expand_vars(a[2][1]))
+        ls = last_seg(a[1])
+        if ls == "starts_with" and lit == "~/" and val is True:
+            return True
+        if ls in ("eq", "ne") and lit == "~" and val is (ls == "eq"):
+            return True
+        return False
+    seen, todo = set(), [0]
+    while todo:
+        x = todo.pop()
+        if x in seen:
+            continue
+        seen.add(x)
+        cut = {tgt for tgt, atom, val in b.switch_edges(x) if narrow(atom, val)}
+        for y in b.succs[x]:
+            if y in cut and len(b.switch_edges(x)) >= 2:
+                continue
+            todo.append(y)
+    return not any(r in seen for r in rec)
